@@ -496,8 +496,10 @@ func (f *FuncVC) loopHead(st *State, li *loopInfo) {
 			}
 		}
 	}
-	// 2. havoc
+	// 2. havoc (the allocation watermark first: values produced by earlier
+	// iterations may refer to objects allocated inside the loop)
 	hs := f.loopEffects(li)
+	f.bumpWM(st)
 	for _, a := range f.sortedCells(st.cells) {
 		if hs.cells[a] {
 			st.cells[a] = f.freshTyped(st, a.Type().(*types.Pointer).Elem(), "lp."+a.Comment)
@@ -530,7 +532,6 @@ func (f *FuncVC) loopHead(st *State, li *loopInfo) {
 		st.heaps[n] = fr
 		f.frameAxiom(st, n, names[n], fr, old)
 	}
-	f.bumpWM(st)
 	// new path condition constant so that facts about the loop head do not leak backwards
 	// 3. assume invariant
 	if ri != nil {
